@@ -99,3 +99,22 @@ class options(object):
 
     def __exit__(self, *a):
         self.da.rcParams.update(self.old)
+
+
+def array_args(*objs):
+    """the ndarrays / DimArrays / Axis objects found in the arguments of a call (index arrays, masks, right-hand sides, label
+    vectors): "any array passed to it" in C15's sense, to be listed among the operands that M-IMM watches"""
+    out = []
+
+    def walk(o, depth=0):
+        if isinstance(o, np.ndarray) or is_da(o) or type(o).__name__ in ('Axis', 'MultiAxis'):
+            out.append(o)
+        elif isinstance(o, (list, tuple)) and depth < 3:
+            for q in o:
+                walk(q, depth + 1)
+        elif isinstance(o, dict) and depth < 3:
+            for q in o.values():
+                walk(q, depth + 1)
+    for o in objs:
+        walk(o)
+    return tuple(out)
